@@ -9,17 +9,22 @@ Local Open Scope bool_scope.
 
 Definition oedit : Type := (Z * Z * list N)%type.
 Definition edit_obs (e : edit) : oedit := (e_from e, e_to e, e_text e).
+Definition ote : Type := (Z * Z * Z * Z * list N)%type.
+Definition te_obs (t : text_edit) : ote :=
+  (lp_line (te_start t), lp_char (te_start t), lp_line (te_end t), lp_char (te_end t), te_text t).
+Definition ote_eqb (a b : ote) : bool :=
+  let '(a1, a2, a3, a4, a5) := a in let '(b1, b2, b3, b4, b5) := b in
+  Z.eqb a1 b1 && Z.eqb a2 b2 && Z.eqb a3 b3 && Z.eqb a4 b4 && list_N_eqb a5 b5.
 Definition oedit_eqb (a b : oedit) : bool :=
   let '(f1, t1, x1) := a in let '(f2, t2, x2) := b in Z.eqb f1 f2 && Z.eqb t1 t2 && list_N_eqb x1 x2.
 
-Definition ttype_of_code (c : N) : ttype :=
-  match filter (fun t => N.eqb (tt_code t) c) all_tt with t :: _ => t | [] => INVALID end.
 
 Inductive fmtcase :=
 (* Fmt(input): accepted with this output, or rejected *)
 | CFmt (input : list N) (ok : bool) (out : list N)
-(* FmtDiffs(input): 0 = edits, 1 = error, 2 = panic; and genlsp's TextEdits agree with the edits *)
-| CDiffs (input : list N) (kind : N) (edits : list oedit)
+(* FmtDiffs(input): 0 = edits, 1 = error, 2 = panic; and the TextEdits genlsp's Format returns for the same
+   input (start line, start character, end line, end character, text), empty when there are no edits *)
+| CDiffs (input : list N) (kind : N) (edits : list oedit) (lsp : list ote)
 (* tokenSource(Token{Type, Lit}) *)
 | CTokSrc (code : N) (lit : list N) (out : list N)
 (* reformatDescription(input, maxWidth) *)
@@ -33,9 +38,11 @@ Definition fmt_check (c : fmtcase) : bool :=
     | Err _ => negb ok
     | _ => false
     end
-  | CDiffs input kind edits =>
+  | CDiffs input kind edits lsp =>
+    (* lsp_format input = omap (map to_text_edit) (fmt_diffs input): FmtDiffs is evaluated once *)
     match fmt_diffs input with
     | Ok es => N.eqb kind 0 && list_eqb oedit_eqb (map edit_obs es) edits
+               && list_eqb ote_eqb (map te_obs (map to_text_edit es)) lsp
     | Err _ => N.eqb kind 1
     | Panic _ => N.eqb kind 2
     | OutOfFuel => false
